@@ -221,12 +221,19 @@ def run(tier: str) -> int:
         power = float(rs.choice([0.0, 0.25, 0.5, 1.0]))
         CountingAtoms.nset = 0
         fb = make(forces, delta_, T_, masses=masses, power=power, seed=int(rs.randint(1, 10**6)), cls=CountingAtoms)
+        # the three documented spellings of masses_scaling_power: float, per-element dict, (N,3) array
+        if it % 4 == 1:
+            fb.masses_scaling_power = {"Cu": power}
+        elif it % 4 == 2:
+            parr = rs.choice([0.0, 0.25, 1.0], size=(n, 3))
+            fb.masses_scaling_power = parr
+            power = parr
         g = LimitedGenerator(int(rs.randint(1, 10**6)))
         fb._rng = g
         pos0 = fb.atoms.get_positions()
         CountingAtoms.nset = 0
         rep.count(("magnitude", it))
-        ctx = {"forces": forces.tolist(), "delta": np.asarray(delta_).tolist(), "T": T_, "power": power}
+        ctx = {"forces": forces.tolist(), "delta": np.asarray(delta_).tolist(), "T": T_, "power": np.asarray(power).tolist()}
         try:
             fb.step()
         except RuntimeError as ex:
